@@ -127,42 +127,36 @@ def main(what, rest):
 
 
 def findings_selftest():
-    """Exercise the known-finding path: with a mutant that breaks C08 only for
-    backslashes and an *open* finding whose triggers are the backslash choices,
-    the check must print KNOWN-FINDING and exit 0; with a second, unlisted
-    defect on top (double quotes unescaped too) it must still exit 1."""
-    from selftests import mutants as M
-    sys.path.insert(0, VERIF)
-    from scenarios import c08
-    bs_cls = c08.CLASS_NAMES.index("backslash")
-    trig = []
-    for lab in ("name", "name2", "content"):
-        trig.append(["wl", lab + ".txt.cls", bs_cls])
-    for lab in ("name", "name2", "content"):
-        for i, w in enumerate(c08.WHOLE):
-            if "\\" in w and i:
-                trig.append(["wl", lab + ".whole", i])
-    finding = {"findings": [{"id": "KF-selftest", "status": "open", "property": "C08", "clauses": ["C08.malformed", "C08.value"],
-                             "triggers": trig, "what": "selftest: backslash in a name is not escaped"}]}
-    m1 = [m for m in M.MUTANTS if m["name"] == "c08-no-backslash-escape"][0]
+    """Exercise the known-finding path on C16: with a defect that drops the
+    authorisation id from PLAIN and an *open* finding whose trigger is "an
+    authorisation id was given", the check must print KNOWN-FINDING and exit 0;
+    with a second, unlisted defect on top (LOGIN sends the user name as the
+    password) it must still exit 1 with a VIOLATION."""
+    finding = {"findings": [{"id": "KF-selftest", "status": "open", "property": "C16", "clauses": ["C16.creds"],
+                             "triggers": [["wl", "has_authz", 1]],
+                             "what": "selftest: PLAIN does not carry the authorisation id"}]}
+    old1 = 'params = base64.b64encode(b"\\0".join([authz_id, login, password]))'
+    new1 = 'params = base64.b64encode(b"\\0".join([b"", login, password]))'
+    old2 = """'"%s"' % base64.b64encode(password).decode("ascii")"""
+    new2 = """'"%s"' % base64.b64encode(login).decode("ascii")"""
     rc_all = 0
-    for label, extra, want in (("listed defect only", None, 0), ("listed + unlisted defect", "dq", 1)):
+    for label, extra, want in (("listed defect only", False, 0), ("listed + unlisted defect", True, 1)):
         d = _scratch_copy()
         try:
-            path = os.path.join(d, m1["file"])
+            path = os.path.join(d, "sievelib/managesieve.py")
             src = open(path).read()
-            assert src.count(m1["old"]) == 1
-            new = m1["new"]
+            assert src.count(old1) == 1 and src.count(old2) == 1, (src.count(old1), src.count(old2))
+            src = src.replace(old1, new1)
             if extra:
-                new = "                    pass\n"
-            open(path, "w").write(src.replace(m1["old"], new))
+                src = src.replace(old2, new2)
+            open(path, "w").write(src)
             fpath = os.path.join(d, "kf.json")
             json.dump(finding, open(fpath, "w"))
             env = dict(os.environ, VERIF_REPO=d, VERIF_NO_DETERMINISM="1", VERIF_FINDINGS=fpath,
                        VERIF_REPLAY_DIR=os.path.join(d, "replays"), VERIF_EVIDENCE_DIR=os.path.join(d, "ev"))
-            out = subprocess.run([PY, VCHECK, "run", "C08", "--scale", "0.3"], capture_output=True, text=True, env=env, timeout=1200)
+            out = subprocess.run([PY, VCHECK, "run", "C16", "--scale", "0.3"], capture_output=True, text=True, env=env, timeout=1200)
             lines = [l for l in out.stdout.splitlines() if l.startswith(("KNOWN-FINDING", "VIOLATION", "PASS", "HARNESS", "violation:"))]
-            ok = out.returncode == want and (want == 1 or any(l.startswith("KNOWN-FINDING") for l in lines))
+            ok = out.returncode == want and any(l.startswith("KNOWN-FINDING") for l in lines)
             print("findings selftest [%s]: rc=%d (want %d) %s\n   %s" % (label, out.returncode, want, "OK" if ok else "WRONG", "\n   ".join(l[:220] for l in lines)))
             if not ok:
                 rc_all = 1
